@@ -79,7 +79,16 @@ row("g_mem", "sync", ret="str", tags=["tb"], maxmem=100, policy="lru")
 # a function that names itself (and another one) among its dependencies
 row("g_self", "sync", deps=["g_self"], tags=["ta"], limit=3, policy="fifo")
 row("g_self_async", "async", deps=["g_self_async", "g_a"], events=["ea"])
+# the same label used for different KINDS of grouping by different functions (a tag of one is an event /
+# a dependency of another; a tag equal to another function's cache name; labels crossed with g_a / g_ab)
+row("g_x1", "sync", tags=["x"], limit=3, policy="lru")
+row("g_x2", "async", events=["x"])
+row("g_x3", "sync", deps=["x"], tags=["g_x1"])
+row("g_x4", "async", tags=["ea"], events=["ta"], limit=3, policy="fifo")
 # async bodies with await points (C20)
+row("a_await1_arc", "async", awaits=1, limit=2, policy="arc")
+row("a_await2_tlru_ttl3", "async", awaits=2, limit=2, policy="tlru", ttl=3)
+row("a_await1_inv", "async", awaits=1, limit=2, policy="lru", inv=True)
 row("a_await1", "async", awaits=1, limit=2, policy="lru")
 row("a_await2_ttl2", "async", awaits=2, ttl=2, limit=2, policy="fifo")
 row("a_await3_res", "async", awaits=3, ret="res", limit=2, policy="lfu")
